@@ -8,8 +8,10 @@ import (
 	"log"
 	"os"
 	"path/filepath"
+	"runtime"
 	"sort"
 	"strings"
+	"sync"
 	"testing"
 	"time"
 
@@ -401,6 +403,116 @@ func TestC18(t *testing.T) {
 				}
 				col.Sample(h, small)
 			}
+		}
+	})
+}
+
+// handoffWriter passes every Write to a reader goroutine and returns only when the reader has copied
+// the bytes (it does not retain p after returning, as io.Writer demands) - like an io.Pipe. While one
+// machine waits inside Write, other machines go on printing.
+type handoffWriter struct {
+	ch  chan []byte
+	ack chan struct{}
+	got []byte
+}
+
+func newHandoff() *handoffWriter {
+	h := &handoffWriter{ch: make(chan []byte), ack: make(chan struct{})}
+	go func() {
+		for p := range h.ch {
+			runtime.Gosched()
+			h.got = append(h.got, p...)
+			h.ack <- struct{}{}
+		}
+		close(h.ack)
+	}()
+	return h
+}
+
+func (h *handoffWriter) Write(p []byte) (int, error) {
+	h.ch <- p
+	<-h.ack
+	return len(p), nil
+}
+
+// TestC18Concurrent: several mini CP/M machines print at the same time, each through its own writer;
+// every console must still receive exactly its own program's bytes, in order (built with -race).
+func TestC18Concurrent(t *testing.T) {
+	col := stats.New("C18")
+	col.Sub = "concurrent"
+	defer func() {
+		if err := col.Write(env); err != nil {
+			t.Errorf("HARNESS: %v", err)
+		}
+	}()
+	col.Rule = "concurrent: 2..8 machines in their own goroutines print generated strings through hand-off writers (Write returns after a reader goroutine has copied the bytes); " +
+		"each console must hold exactly its program's output; race detector on; non-trivial = every round"
+	rapid.Check(t, func(t *rapid.T) {
+		n := rapid.IntRange(2, 8).Draw(t, "machines")
+		ln := rapid.IntRange(20, 400).Draw(t, "len")
+		seed := rapid.Uint64().Draw(t, "seed")
+		wants := make([][]byte, n)
+		gots := make([][]byte, n)
+		errs := make([]string, n)
+		var wg sync.WaitGroup
+		for i := 0; i < n; i++ {
+			s := make([]int, ln)
+			for j := range s {
+				b := int(stats.Hash(seed, uint64(i), uint64(j)) & 0xff)
+				if b == '$' {
+					b = '#'
+				}
+				s[j] = b
+			}
+			c := c18Case{SP: 0xF000, Calls: []call{{Kind: "fn9", Addr: 0x2000, Str: s}, {Kind: "fn2", E: 'A' + i}, {Kind: "fn9", Addr: 0x4000, Str: s[:ln/2]}}}
+			wants[i] = append(append(append([]byte{}, toBytes(s)...), byte('A'+i)), toBytes(s[:ln/2])...)
+			wg.Add(1)
+			go func(i int, c c18Case) {
+				defer wg.Done()
+				defer func() {
+					if p := recover(); p != nil {
+						errs[i] = fmt.Sprint("panic: ", p)
+					}
+				}()
+				a := assemble(&c)
+				mem, io := tinycpm.New()
+				for k, b := range a.code {
+					mem.Set(uint16(progAt+k), b)
+				}
+				for at, str := range a.strs {
+					for k, b := range str {
+						mem.Set(uint16(at+k), b)
+					}
+				}
+				h := newHandoff()
+				io.SetStdout(h)
+				io.SetWarnLogger(log.New(&bytes.Buffer{}, "", 0))
+				cpu := z80.CPU{States: z80.States{SPR: z80.SPR{PC: progAt}}, Memory: mem, IO: io}
+				ctx, cancel := context.WithTimeout(context.Background(), 30*time.Second)
+				defer cancel()
+				if err := cpu.Run(ctx); err != nil {
+					errs[i] = fmt.Sprint("Run returned ", err)
+				}
+				close(h.ch)
+				<-h.ack
+				gots[i] = h.got
+			}(i, c)
+		}
+		wg.Wait()
+		col.Eval(int64(n))
+		for i := 0; i < n; i++ {
+			if errs[i] == "" && !bytes.Equal(gots[i], wants[i]) {
+				errs[i] = fmt.Sprintf("machine %d of %d received %d bytes %q, want %d bytes %q", i, n, len(gots[i]), clip(gots[i]), len(wants[i]), clip(wants[i]))
+			}
+			if errs[i] != "" {
+				stats.WriteViolation(env, stats.Violation{Property: "C18", Engine: "cpm-concurrent", Case: map[string]any{"machines": n, "len": ln, "seed": seed},
+					Expect: "every console receives exactly its own program's output", Got: errs[i]})
+				t.Fatalf("VIOLATION-CANDIDATE C18 %s", errs[i])
+			}
+		}
+		col.Distinct(stats.Hash(seed, uint64(n), uint64(ln)))
+		if col.WantSample(seed) {
+			col.Sample(seed, map[string]any{"machines": n, "len": ln, "seed": seed})
 		}
 	})
 }
